@@ -66,7 +66,8 @@ func properties() []Property {
 			}},
 		{ID: "C04", Assumptions: []string{aSummaries, aModels, "math.NewIntFromString on a concrete string is computed with math/big (SetString base 0, 256-bit limit) exactly as cosmossdk.io/math does; fixed fee amounts are the decimal rendering of an arbitrary symbolic Int or one of a few non-numbers", "fee recipients are concrete strings (two valid accounts, possibly repeated, and malformed ones): bech32 decoding itself is the SDK's"},
 			Harnesses: []HarnessSpec{
-				{Name: "H_C04_fee", Profile: "bit", Quick: b("entries", 2, "rcpKinds", 3, "feeKinds", 4), Thorough: b("entries", 3, "rcpKinds", 5, "feeKinds", 4), Covers: []string{"refused", "accepted"}, TimeoutThorough: 2400},
+				{Name: "H_C04_fee", Profile: "bit", Quick: b("entries", 2, "rcpKinds", 3, "feeKinds", 4), Thorough: b("entries", 2, "rcpKinds", 5, "feeKinds", 4), Covers: []string{"refused", "accepted"}, TimeoutThorough: 2400},
+				{Name: "H_C04_fee3", Profile: "bit", ThoroughOnly: true, Thorough: b("entries", 3, "rcpKinds", 2, "feeKinds", 3), Covers: []string{"refused", "accepted"}, TimeoutThorough: 2400},
 				{Name: "H_C04_count", Profile: "bit", Covers: []string{"refused", "accepted"}},
 				{Name: "H_C04_compute_amount", Profile: "bit", Covers: []string{"overflow", "non-positive", "positive"}},
 			}},
